@@ -110,8 +110,16 @@ pub fn mk<C: CI>(codes: &[u8]) -> Seq<C> {
     Seq::<C>::try_from(t.as_str()).unwrap_or_else(|e| panic!("harness: model text {t:?} rejected: {e:?}"))
 }
 /// Observe the codes of a real slice (through iteration and `to_bits`).
+/// A decode that panics (invalid bit pattern) yields a marker vector that equals no model value.
 pub fn codes_of<C: CI>(s: &SeqSlice<C>) -> Vec<u8> {
-    s.iter().map(|x| x.to_bits()).collect()
+    match observe(|| s.iter().map(|x| x.to_bits()).collect::<Vec<u8>>()) {
+        Ok(v) => v,
+        Err(_) => vec![0xEE; s.len() + 1],
+    }
+}
+/// display that cannot panic (for failure messages)
+pub fn show<C: CI>(s: &SeqSlice<C>) -> String {
+    observe(|| s.to_string()).unwrap_or_else(|e| format!("<display panicked: {e}>"))
 }
 pub fn rand_codes(rng: &mut Rng, a: &Alphabet, n: usize) -> Vec<u8> {
     let codes = a.codes();
